@@ -113,6 +113,10 @@ func dataflowCase(c *Ctx, focus string) {
 		gcfg.MapBias = true
 	}
 	prog := Generate(c.Plan, gcfg)
+	if !AdvOn && c.Plan.Draw(8) == 0 {
+		prog = templateDisabledProg(c.Plan)
+		c.Res.Probes["template-disabled-program"]++
+	}
 	cfg := &RunCfg{Prog: prog, FCfg: &FCfg{MaxLen: 1 + c.Plan.Draw(3), MaxChunks: c.Plan.Draw(4), Salt: "df", AllowNil: c.Plan.Draw(4) == 0},
 		MaxSteps: 60000}
 	if AdvOn {
@@ -232,4 +236,70 @@ func init() {
 	Profiles["C01"] = func(c *Ctx) { dataflowCase(c, "C01") }
 	Profiles["C02"] = func(c *Ctx) { dataflowCase(c, "C02") }
 	Profiles["C03"] = func(c *Ctx) { dataflowCase(c, "C03") }
+}
+
+// templateDisabledProg builds a program from the family "values guarded by
+// several run-time disable conditions": flags computed by stages, a producer
+// disabled by one flag, a sub-pipeline (passing its input through and calling a
+// stage) disabled by another, consumers of single fields and of whole structs.
+func templateDisabledProg(plan *Tape) *Prog {
+	p := &Prog{}
+	intT, boolT, strT := Ty{Base: "int"}, Ty{Base: "bool"}, Ty{Base: "string"}
+	ref := func(call string, path ...string) *Expr { return &Expr{Kind: ERef, Call: call, Path: path} }
+	self := func(path ...string) *Expr { return &Expr{Kind: ERef, Self: true, Path: path} }
+	lit := func(v int) *Expr { return &Expr{Kind: ELit, Val: int64(v), T: intT} }
+	p.Stages = []*StageDef{
+		{Name: "FLAG", SrcKind: "comp", Ins: []Field{{"seed", intT}}, Outs: []Field{{"on", boolT}, {"n", intT}}},
+		{Name: "SRC", SrcKind: "comp", Ins: []Field{{"k", intT}}, Outs: []Field{{"payload", strT}, {"num", intT}}},
+		{Name: "WORK", SrcKind: "comp", Ins: []Field{{"s", strT}}, Outs: []Field{{"res", strT}}},
+		{Name: "SINK", SrcKind: "comp", Ins: []Field{{"a", strT}, {"b", strT}, {"c", intT}}, Outs: []Field{{"done", intT}}},
+	}
+	inner := &PipelineDef{Name: "INNER", Ins: []Field{{"x", strT}, {"m", intT}},
+		Outs: []Field{{"pass", strT}, {"made", strT}, {"m", intT}}}
+	inner.Calls = []*CallDef{{Callee: "WORK", Id: "WORK", Binds: []Bind{{"s", self("x"), false}}}}
+	inner.Ret = []Bind{{"pass", self("x"), false}, {"made", ref("WORK", "res"), false}, {"m", self("m"), false}}
+	mid := inner
+	p.Pipelines = []*PipelineDef{inner}
+	if plan.Draw(2) == 0 {
+		// one more level of pass-through nesting
+		mid = &PipelineDef{Name: "MID", Ins: []Field{{"x", strT}, {"m", intT}, {"off", boolT}},
+			Outs: []Field{{"pass", strT}, {"made", strT}, {"m", intT}}}
+		ic := &CallDef{Callee: "INNER", Id: "INNER", Binds: []Bind{{"x", self("x"), false}, {"m", self("m"), false}}}
+		if plan.Draw(2) == 0 {
+			ic.Disabled = self("off")
+		}
+		mid.Calls = []*CallDef{ic}
+		if ic.Disabled == nil {
+			mid.Ins = mid.Ins[:2]
+		}
+		mid.Ret = []Bind{{"pass", ref("INNER", "pass"), false}, {"made", ref("INNER", "made"), false}, {"m", self("m"), false}}
+		p.Pipelines = append(p.Pipelines, mid)
+	}
+	top := &PipelineDef{Name: "TOPD", Ins: []Field{{"n", intT}}}
+	fa := &CallDef{Callee: "FLAG", Id: "FLAG_A", Binds: []Bind{{"seed", lit(plan.Draw(50)), false}}}
+	fb := &CallDef{Callee: "FLAG", Id: "FLAG_B", Binds: []Bind{{"seed", lit(50 + plan.Draw(50)), false}}}
+	src := &CallDef{Callee: "SRC", Id: "SRC", Binds: []Bind{{"k", self("n"), false}}}
+	if plan.Draw(3) > 0 {
+		src.Disabled = ref("FLAG_B", "on")
+	}
+	mc := &CallDef{Callee: mid.Name, Id: mid.Name, Binds: []Bind{{"x", ref("SRC", "payload"), false}, {"m", ref("SRC", "num"), false}}}
+	if len(mid.Ins) == 3 {
+		mc.Binds = append(mc.Binds, Bind{"off", ref("FLAG_B", "on"), false})
+	}
+	if plan.Draw(4) > 0 {
+		mc.Disabled = ref("FLAG_A", "on")
+	}
+	sink := &CallDef{Callee: "SINK", Id: "SINK", Binds: []Bind{
+		{"a", ref(mid.Name, "pass"), false}, {"b", ref(mid.Name, "made"), false}, {"c", ref(mid.Name, "m"), false}}}
+	if plan.Draw(3) == 0 {
+		sink.Disabled = ref("FLAG_B", "on")
+	}
+	top.Calls = []*CallDef{fa, fb, src, mc, sink}
+	top.Outs = []Field{{"pass", strT}, {"made", strT}, {"done", intT}, {"flags", boolT.ArrayOf()}}
+	top.Ret = []Bind{{"pass", ref(mid.Name, "pass"), false}, {"made", ref(mid.Name, "made"), false},
+		{"done", ref("SINK", "done"), false},
+		{"flags", &Expr{Kind: EArr, T: boolT.ArrayOf(), Elems: []*Expr{ref("FLAG_A", "on"), ref("FLAG_B", "on")}}, false}}
+	p.Pipelines = append(p.Pipelines, top)
+	p.Top = &CallDef{Callee: "TOPD", Id: "TOPD", Binds: []Bind{{"n", lit(plan.Draw(9)), false}}}
+	return p
 }
